@@ -562,6 +562,7 @@ func cmdLedgerUpdate(args []string) int {
 	data, _ := json.MarshalIndent(led, "", " ")
 	os.WriteFile(filepath.Join(verifDir, "baseline_obligations.json"), append(data, '\n'), 0o644)
 	fmt.Printf("ledger: %d obligations\n", len(led))
+	memoMerge(args)
 	return 0
 }
 
